@@ -43,3 +43,58 @@ add("C09", "graph",
     "For each of several streams (ASCII, 2/3/4-byte characters, full entries, 16 malformed variants) the complete graph of (bytes consumed, real object) states is explored with one real write per (state, chunk length): all 2^(n-1) partitions are covered. Every write must return Ok(len) with a prefix of the expected entries, the end state must equal the single-write result and print back the stream; malformed streams must fail by the completing write with exactly the preceding entries.",
     "Streams are fixed (not all streams); state merging relies on (buffer, entries) being the complete object state (hook + size_of tripwire); the unmerged partition runs do not rely on it.",
     "DESIGN.md section 4, C09")
+add("C10", "trie",
+    "bounded exhaustive generation of canonical distinfo files from a grammar; byte equality of parse->write and field equality of API-build->write->parse",
+    "Tens of thousands of canonical files (5 RCS-Id lines incl. non-UTF-8 user names, name pools with DIST_SUBDIR components, valid UTF-8 containing the bytes A0/85, invalid UTF-8, parentheses and classifier edge names, every ordered subset of the six algorithms, sizes up to 2^64-1, up to 2+2 files): from_bytes(f).as_bytes() == f byte for byte; the same content built through Entry::new/insert/set_rcsid writes the same bytes and parses back to the same fields; Entry::as_bytes equals the entry's lines.",
+    "Grammar-bounded (<= 2 distfiles, <= 2 patches per file); patch entries carry no size; reference serialiser mc/core/src/model/distinfo.rs trusted.",
+    "DESIGN.md section 4, C10")
+add("C11", "trie",
+    "bounded exhaustive enumeration of line sequences, a full name-byte sweep and classifier token sequences; reference line classifier/grouper",
+    "Every sequence of <= 4-5 lines over a 17-line alphabet (three files incl. a patch and a sub-directory name, blanks/tabs variants, 7 noise kinds), every byte 0x01-0xFF (except ASCII whitespace and '/') in four name shapes plus all 2-byte UTF-8 sequences ending in 85/A0 in checksum and size lines between neighbours, and every name of <= 4-5 classifier tokens: recorded files, order, checksums, sizes and class must equal the reference grouper's.",
+    "Names in path-normal form; 'emul-patch-*' overlap case undecided by the statement and skipped; reference model mc/core/src/model/distinfo.rs trusted.",
+    "DESIGN.md section 4, C11")
+add("C12", "config",
+    "exhaustive enumeration of (file content, recorded value) configurations materialised on a scratch directory; verdicts recomputed from a vector-tested digest oracle",
+    "File contents = all sequences of <= 2-4 lines over 6 line kinds (incl. $NetBSD lines, NUL/0xFF, unterminated last line) x {distfile, patch} x algorithms, distinfo built by API and by parsing text: correct values verify; every single-hex-digit corruption of the recorded hash at every position, truncation/extension, size +-1/0/max, every byte of a short file incremented/deleted/inserted, unrecorded algorithm/size - each must yield exactly the stated Ok / Checksum / Size / Missing* result with the right expected/actual values; find_entry against every subset of 5 recorded names x 10 lookup paths.",
+    "Plain files on a local file system only; digest oracle = RustCrypto one-shot functions self-tested against published vectors.",
+    "DESIGN.md section 4, C12")
+add("C13", "env",
+    "deviation-bounded exhaustive enumeration of read schedules (short reads, EINTR, hard errors) by a scripted reader, all compositions for tiny inputs; digest oracle anchored by published vectors",
+    "Inputs of every length 0..300 plus 8 KiB boundaries and patch inputs built from all <= 4-line sequences over marker/newline shapes, x 6 algorithms x hash_file/hash_patch: the default schedule, then every schedule with <= 2 deviations {1 byte, half, all-but-one, inside the next $NetBSD marker, just after a newline, EINTR, hard error} at every read call, and for inputs <= 10 bytes every composition into reads with and without EINTR. Digest must equal the standard's, Err(Io) iff an error was delivered. Name table over all case variants and all 1-edit strings.",
+    "Deviation bound 2; equality with the standard digests is established on the explored inputs and the published vectors only.",
+    "DESIGN.md section 4, C13")
+add("C14", "trie",
+    "bounded exhaustive enumeration of byte strings and of line sequences over a command x argument-shape alphabet; per-line reference parser from the command table",
+    "Every byte string <= 7-8 over {a @ SP TAB LF 0xE9} and every sequence of <= 3-4 lines over an 85-line alphabet (every command with argument absent/present, seven commands with five more argument shapes, unknown commands, file lines, blank lines), with and without a final newline: entry count, order and every entry must equal parsing each non-blank line alone with the reference table; Err exactly when a counted line is invalid.",
+    "Blanks are SP/TAB (0x85/0xA0/CR/VT/FF not generated); entry vector read through the verif hook; reference parser mc/core/src/model/plist.rs trusted.",
+    "DESIGN.md section 4, C14")
+add("C15", "trie",
+    "bounded exhaustive enumeration of entry sequences parsed by the real parser; one reference fold yields all 12 views; model-free cross-check of the four file views",
+    "Every sequence of <= 4-5 entries over 24 entry kinds and of <= 7-9 entries over the 7 kinds that drive the ignore/prefix state machines: files, files_prefixed, install_cmds, uninstall_cmds (by entry identity), the five kind filters, first name/display and is_preserve must equal the fold; the four file views must list the same files in the same order.",
+    "Sequence length bounded; reference fold mc/core/src/model/plist.rs trusted; entry identity through the verif hook.",
+    "DESIGN.md section 4, C15")
+add("C16", "trie",
+    "bounded exhaustive enumeration of line sequences with a reference record splitter, plus exhaustive single-fault injection (I/O error, EINTR, invalid UTF-8) at every read call / line",
+    "Every sequence of <= 4-5 lines over a 25-line alphabet (PKGNAME variants, repeated scalars, list keys, valid/invalid dependencies and locations, unknown keys, noise): Ok/Err, record count, order and every public field against the reference splitter; for every sequence of <= 3-4 lines a hard error and an EINTR at every read call of a 16-byte-buffered reader and an invalid byte in every line: the read must fail as a whole / be unaffected.",
+    "No blank between key and '='; leading blocks of only ignorable lines skipped (undecided); validity of dependencies from the composed reference models.",
+    "DESIGN.md section 4, C16")
+add("C17", "mutate",
+    "exhaustive short-string families and exhaustive deterministic mutation families over seed documents through every entry point, under catch_unwind + watchdog in a supervised child process",
+    "Per entry point: all strings <= 4-7 symbols over its alphabets, every prefix / single deletion / 12-byte-palette substitution / line duplication / two-cut splice of each seed document and of 300 fixture lines, every digit run replaced by 19/20/40-digit runs, every token repeated 10^5 times, and all 512 package-database layouts over 9 directory shapes. A panic, an abort of the child or a call exceeding 2 s (10 s for the long inputs) is a violation carrying the input.",
+    "No randomness; inputs whose cost is inherent to the notation (many brace groups / '*' at length 10^5) and lookup paths longer than PATH_MAX are outside the explored domain; Summary call sequences are covered by C07.",
+    "DESIGN.md section 4, C17")
+add("C18", "trie",
+    "bounded exhaustive enumeration of names; rebuild identity, trailing-nb model and a tie to the real comparison through Pattern",
+    "Every string <= 6-7 over '- n b N 0 1 9 . a e-acute' plus 18-digit revisions: pkgname() identity, split at the last '-', rebuild, revision for versions ending in nb<digits>, none without 'nb', Summary::pkgbase/pkgversion agreement, and five Pattern probes showing that the reported revision is the one the comparison uses.",
+    "Shapes of 'nb' the statement leaves open are only checked for losslessness; bounded by length.",
+    "DESIGN.md section 4, C18")
+add("C19", "trie",
+    "bounded exhaustive enumeration of segment sequences and of colon placements; reference normaliser and composed pattern validity model",
+    "Every sequence of <= 6-7 segments over {.., ., a, b, empty, a.b} with and without leading '/': accept set, accessors, equality and hashes of both spellings, re-parsing of accessor output; 7 pattern halves x 8 path halves x colon counts before/between/after: acceptance, parts equal to the halves parsed directly, error variant naming the failing part.",
+    "Bounded by segment count; reference normaliser mc/core/src/model/pkgpath.rs trusted.",
+    "DESIGN.md section 4, C19")
+add("C20", "config",
+    "exhaustive enumeration of directory-tree configurations materialised on a scratch directory, plus exhaustive table checks",
+    "Every database of <= 2-3 package directories over 9 name shapes with every subset of the three mandatory files, optional extra files and stray plain files: yielded set, pkgname/pkgbase/pkgversion, read_metadata for all 14 entries; the 14-entry file-name table as a bijection with every 1-edit near-miss rejected; Metadata::is_valid over 4^3 combinations.",
+    "Plain files and directories only; iteration order compared as a set.",
+    "DESIGN.md section 4, C20")
